@@ -548,7 +548,8 @@ def _do_export(world, ctx, op, idx, ack_then_boundary):
     multi = len(sel) > 1
     sig = dict(fmt=fmt, kind=first_kind, multi=multi)
     if multi and fmt in ("smesh", "vmesh"):
-        d = "/data/%s_dir%d" % (fmt, op["slot"])
+        # (directory names with dots - release.2.1, 2024.10.03 - are ordinary; the numbered mesh files inside carry dots themselves)
+        d = "/data/%s_dir%d" % (fmt, op["slot"]) if op["slot"] != 1 else "/data/%s.rel.2.%d" % (fmt, op["slot"])
         world.disk.mkdir(d)
         base = d + "/" + fmt + FMT_EXT[fmt]
         stem, ext = base[:-len(FMT_EXT[fmt])], FMT_EXT[fmt]
